@@ -17,7 +17,7 @@ CATALOGUE = [
     M("signed-false-dropped", "R04.1", "        signed.bit_width = unsigned.bit_width\n        signed.signed = False\n", "        signed.bit_width = unsigned.bit_width\n"),
     M("promo-threshold-16", "R04.3", "if pure_type.bit_width >= 32:", "if pure_type.bit_width >= 16:"),
     M("promo-gt", "R04.3", "if pure_type.bit_width >= 32:", "if pure_type.bit_width > 32:"),
-    M("promo-unsigned", "R04.3", "    return ValueType(True, 32)\n\n\ndef get_value_type_from_reg_type", "    return ValueType(False, 32)\n\n\ndef get_value_type_from_reg_type"),
+    M("promo-unsigned", "R04.3", "    return ValueType(True, 32)\n\n\ndef wrap_to_type", "    return ValueType(False, 32)\n\n\ndef wrap_to_type"),
     M("eq-ignores-sign", "R04.4", "basics_match = self.bit_width == other.bit_width and self.signed == other.signed", "basics_match = self.bit_width == other.bit_width"),
     M("early-return-on-rank", "R04.1", "if sign_match and rank_match:", "if rank_match:"),
     T("max-on-copies", "        if va.bit_width < vb.bit_width:\n            va.bit_width = vb.bit_width\n        else:\n            vb.bit_width = va.bit_width\n        return va, vb",
